@@ -3,12 +3,10 @@ package zz_verifsim
 import (
 	"io"
 	"testing"
+	"testing/synctest"
 )
 
-type clientSet struct{ w *World }
-
-func newClientSet(w *World) *clientSet { return &clientSet{w: w} }
-func (c *clientSet) shutdown()         {}
+func synctestWait() { synctest.Wait() }
 
 func runEventLoopWorld(t *testing.T, p *Plan, want []string, logw io.Writer) *Result { return &Result{Seed: p.Seed, Harness: "not built"} }
 func runCmdCacheWorld(t *testing.T, p *Plan, want []string, logw io.Writer) *Result  { return &Result{Seed: p.Seed, Harness: "not built"} }
